@@ -12,6 +12,9 @@ CHECKS = {
  "C11": dict(design="3/C11", technique="model-based property testing: exhaustive enumeration of the small cadence lattice plus Hypothesis-generated cadence tuples, compared with a reference model of due steps and with a cadence-1 reference run",
              text="The real run loop, OutputConfig, HDF5Writer, XYZWriter and checkpoint code are driven with an analytic stub force field. Quick enumerates all 1250 points of {0..4}^4 x {6,12} steps and 1500 generated tuples (cadences up to 50 and steps+1, xyz/print/checkpoint, molid subsets, BOMD/Langevin, fresh and crashed-and-resumed). Every stream must hold exactly {0} u multiples of its own cadence, no filler rows, values equal to the cadence-1 run. The lattice sub-domain is exhaustive; the rest is exploration.",
              note="Electronic structure replaced by a stub (the property concerns output code only); XL-BOMD/FSSH-specific streams are not covered by the stub engine. Screen and checkpoint streams: only positive multiples asserted, as the manual promises."),
+ "C14": dict(design="3/C14", technique="property-based testing of cross-observable identities (Hypothesis), with an independent NumPy NDDO reference for atomic energies, heats, Fock eigenvalues, the energy functional and the dipole; metamorphic translation law",
+             text="Every identity of the statement is evaluated on the attributes returned by one generated calculation (4 methods, neutrals/ions/UHF radicals, three solvers, single and zero-padded batches, S0 and CIS/RPA active states): energy partition, heat of formation from independently derived atomic energies, gap vs orbital energies, eigenvalues of the independently built Fock operator of the reported density, charges from the density, dipole from charges+hybridisation and its translation law. Exploration with algebraic bounds (1e-9) four orders above the measured round-off.",
+             note="The independent reference (pv/refnddo.py) is my reading of the published equations, validated against this code at design time; Fock-eigenvalue clause only for MNDO/AM1/PM3 RHF <= 20 orbitals; PM6 (d orbitals) excluded because its dipole is not implemented."),
 }
 NOT_APPLICABLE = []
 def main():
